@@ -107,6 +107,12 @@ func (*c01b) Impl(c Case) []string {
 			} else if t[1] == "2" {
 				tr.adaptive = true
 				rd, err = cl.GetBlobRange(context.Background(), "foo", ociregistry.Digest(dg), 0, -1)
+			} else if t[1] == "3" {
+				// a manifest read through its tag: the digest the registry declares (Docker-Content-Digest)
+				// is what the content is verified against
+				rd, err = cl.GetTag(context.Background(), "foo", "latest")
+			} else if t[1] == "4" {
+				rd, err = cl.GetManifest(context.Background(), "foo", ociregistry.Digest(dg))
 			} else {
 				tr.status = 206
 				tr.crange = fmt.Sprintf("bytes 1-%d/%d", size, size) // the reader's size comes from Content-Range's total
@@ -177,7 +183,7 @@ func (*c01b) Gen(rng *RNG, tier string) []Case {
 		if rng.Chance(1, 4) {
 			line = fmt.Sprintf("rd 0 %d %s", size, tok(dg))
 		} else if rng.Chance(1, 3) {
-			line = fmt.Sprintf("rd 2 %d %s", size, tok(dg)) // the whole blob through the range call
+			line = fmt.Sprintf("rd %d %d %s", 2+rng.Intn(3), size, tok(dg)) // the whole blob through the range call; a manifest by tag, by digest
 		} else {
 			line = fmt.Sprintf("rd 1 %d %s", size, tok(dg))
 		}
@@ -211,7 +217,7 @@ func (*c01b) Oracle(c Case, impl []string) []Failure {
 		switch {
 		case got == "panic":
 			fail("reader-panic", "an error or a clean end")
-		case (t[1] == "1" || t[1] == "2") && !matches && strings.HasPrefix(got, "eof"):
+		case t[1] != "0" && !matches && strings.HasPrefix(got, "eof"):
 			cl := "reader-clean-eof-on-mismatch"
 			switch {
 			case int64(len(body)) < size:
@@ -222,7 +228,7 @@ func (*c01b) Oracle(c Case, impl []string) []Failure {
 				cl += ":bytes"
 			}
 			fail(cl, "err (content does not match its descriptor)")
-		case (t[1] == "1" || t[1] == "2") && matches && got != "eof "+tok(string(body)):
+		case t[1] != "0" && matches && got != "eof "+tok(string(body)):
 			fail("reader-rejects-matching", "eof with exactly the body")
 		case t[1] == "0" && int64(len(body)) > size && strings.HasPrefix(got, "eof"):
 			fail("reader-clean-eof-on-mismatch:long-unverified", "err (body longer than the descriptor size)")
